@@ -14,45 +14,21 @@ import WaVerif.Props.C03RowsMisc
 namespace WaVerif.C03
 open WaVerif WaVerif.Wasm WaVerif.C03 WaVerif.Gen.C03
 
-theorem i32_add_partial : Partial2 CVal.i32 CVal.i32 CVal.i32 Guard.addOk (wBin .add) f_i32_add := Rows.i32_add_partial
-theorem i32_add_full_false : ¬ Full2 CVal.i32 CVal.i32 CVal.i32 (wBin .add) f_i32_add := Rows.i32_add_full_false
-theorem i32_add_sound : Sound2 CVal.i32 CVal.i32 CVal.i32 (wBin .add) f_i32_add := Rows.i32_add_sound
-theorem i32_sub_partial : Partial2 CVal.i32 CVal.i32 CVal.i32 Guard.subOk (wBin .sub) f_i32_sub := Rows.i32_sub_partial
-theorem i32_sub_full_false : ¬ Full2 CVal.i32 CVal.i32 CVal.i32 (wBin .sub) f_i32_sub := Rows.i32_sub_full_false
-theorem i32_sub_sound : Sound2 CVal.i32 CVal.i32 CVal.i32 (wBin .sub) f_i32_sub := Rows.i32_sub_sound
-theorem i32_mul_partial : Partial2 CVal.i32 CVal.i32 CVal.i32 Guard.mulOk (wBin .mul) f_i32_mul := Rows.i32_mul_partial
-theorem i32_mul_full_false : ¬ Full2 CVal.i32 CVal.i32 CVal.i32 (wBin .mul) f_i32_mul := Rows.i32_mul_full_false
-theorem i32_mul_sound : Sound2 CVal.i32 CVal.i32 CVal.i32 (wBin .mul) f_i32_mul := Rows.i32_mul_sound
-theorem i32_div_s_partial : Partial2 CVal.i32 CVal.i32 CVal.i32 Guard.divS (wBin .div_s) f_i32_div_s := Rows.i32_div_s_partial
-theorem i32_div_s_full_false : ¬ Full2 CVal.i32 CVal.i32 CVal.i32 (wBin .div_s) f_i32_div_s := Rows.i32_div_s_full_false
-theorem i32_div_s_sound : Sound2 CVal.i32 CVal.i32 CVal.i32 (wBin .div_s) f_i32_div_s := Rows.i32_div_s_sound
-theorem i32_div_u_partial : Partial2 CVal.i32 CVal.i32 CVal.i32 Guard.divU (wBin .div_u) f_i32_div_u := Rows.i32_div_u_partial
-theorem i32_div_u_full_false : ¬ Full2 CVal.i32 CVal.i32 CVal.i32 (wBin .div_u) f_i32_div_u := Rows.i32_div_u_full_false
-theorem i32_div_u_sound : Sound2 CVal.i32 CVal.i32 CVal.i32 (wBin .div_u) f_i32_div_u := Rows.i32_div_u_sound
-theorem i32_rem_s_partial : Partial2 CVal.i32 CVal.i32 CVal.i32 Guard.divS (wBin .rem_s) f_i32_rem_s := Rows.i32_rem_s_partial
-theorem i32_rem_s_full_false : ¬ Full2 CVal.i32 CVal.i32 CVal.i32 (wBin .rem_s) f_i32_rem_s := Rows.i32_rem_s_full_false
-theorem i32_rem_s_sound : Sound2 CVal.i32 CVal.i32 CVal.i32 (wBin .rem_s) f_i32_rem_s := Rows.i32_rem_s_sound
-theorem i32_rem_u_partial : Partial2 CVal.i32 CVal.i32 CVal.i32 Guard.divU (wBin .rem_u) f_i32_rem_u := Rows.i32_rem_u_partial
-theorem i32_rem_u_full_false : ¬ Full2 CVal.i32 CVal.i32 CVal.i32 (wBin .rem_u) f_i32_rem_u := Rows.i32_rem_u_full_false
-theorem i32_rem_u_sound : Sound2 CVal.i32 CVal.i32 CVal.i32 (wBin .rem_u) f_i32_rem_u := Rows.i32_rem_u_sound
+theorem i32_add_ok : Full2 CVal.i32 CVal.i32 CVal.i32 (wBin .add) f_i32_add := Rows.i32_add_ok
+theorem i32_sub_ok : Full2 CVal.i32 CVal.i32 CVal.i32 (wBin .sub) f_i32_sub := Rows.i32_sub_ok
+theorem i32_mul_ok : Full2 CVal.i32 CVal.i32 CVal.i32 (wBin .mul) f_i32_mul := Rows.i32_mul_ok
+theorem i32_div_s_ok : Full2 CVal.i32 CVal.i32 CVal.i32 (wBin .div_s) f_i32_div_s := Rows.i32_div_s_ok
+theorem i32_div_u_ok : Full2 CVal.i32 CVal.i32 CVal.i32 (wBin .div_u) f_i32_div_u := Rows.i32_div_u_ok
+theorem i32_rem_s_ok : Full2 CVal.i32 CVal.i32 CVal.i32 (wBin .rem_s) f_i32_rem_s := Rows.i32_rem_s_ok
+theorem i32_rem_u_ok : Full2 CVal.i32 CVal.i32 CVal.i32 (wBin .rem_u) f_i32_rem_u := Rows.i32_rem_u_ok
 theorem i32_and_ok : Full2 CVal.i32 CVal.i32 CVal.i32 (wBin .and) f_i32_and := Rows.i32_and_ok
 theorem i32_or_ok : Full2 CVal.i32 CVal.i32 CVal.i32 (wBin .or) f_i32_or := Rows.i32_or_ok
 theorem i32_xor_ok : Full2 CVal.i32 CVal.i32 CVal.i32 (wBin .xor) f_i32_xor := Rows.i32_xor_ok
-theorem i32_shl_partial : Partial2 CVal.i32 CVal.i32 CVal.i32 Guard.shl32 (wBin .shl) f_i32_shl := Rows.i32_shl_partial
-theorem i32_shl_full_false : ¬ Full2 CVal.i32 CVal.i32 CVal.i32 (wBin .shl) f_i32_shl := Rows.i32_shl_full_false
-theorem i32_shl_sound : Sound2 CVal.i32 CVal.i32 CVal.i32 (wBin .shl) f_i32_shl := Rows.i32_shl_sound
-theorem i32_shr_s_partial : Partial2 CVal.i32 CVal.i32 CVal.i32 Guard.cnt32 (wBin .shr_s) f_i32_shr_s := Rows.i32_shr_s_partial
-theorem i32_shr_s_full_false : ¬ Full2 CVal.i32 CVal.i32 CVal.i32 (wBin .shr_s) f_i32_shr_s := Rows.i32_shr_s_full_false
-theorem i32_shr_s_sound : Sound2 CVal.i32 CVal.i32 CVal.i32 (wBin .shr_s) f_i32_shr_s := Rows.i32_shr_s_sound
-theorem i32_shr_u_partial : Partial2 CVal.i32 CVal.i32 CVal.i32 Guard.cnt32 (wBin .shr_u) f_i32_shr_u := Rows.i32_shr_u_partial
-theorem i32_shr_u_full_false : ¬ Full2 CVal.i32 CVal.i32 CVal.i32 (wBin .shr_u) f_i32_shr_u := Rows.i32_shr_u_full_false
-theorem i32_shr_u_sound : Sound2 CVal.i32 CVal.i32 CVal.i32 (wBin .shr_u) f_i32_shr_u := Rows.i32_shr_u_sound
-theorem i32_rotl_partial : Partial2 CVal.i32 CVal.i32 CVal.i32 Guard.rotl32 (wBin .rotl) f_i32_rotl := Rows.i32_rotl_partial
-theorem i32_rotl_full_false : ¬ Full2 CVal.i32 CVal.i32 CVal.i32 (wBin .rotl) f_i32_rotl := Rows.i32_rotl_full_false
-theorem i32_rotl_sound : Sound2 CVal.i32 CVal.i32 CVal.i32 (wBin .rotl) f_i32_rotl := Rows.i32_rotl_sound
-theorem i32_rotr_partial : Partial2 CVal.i32 CVal.i32 CVal.i32 Guard.rotr32 (wBin .rotr) f_i32_rotr := Rows.i32_rotr_partial
-theorem i32_rotr_full_false : ¬ Full2 CVal.i32 CVal.i32 CVal.i32 (wBin .rotr) f_i32_rotr := Rows.i32_rotr_full_false
-theorem i32_rotr_sound : Sound2 CVal.i32 CVal.i32 CVal.i32 (wBin .rotr) f_i32_rotr := Rows.i32_rotr_sound
+theorem i32_shl_ok : Full2 CVal.i32 CVal.i32 CVal.i32 (wBin .shl) f_i32_shl := Rows.i32_shl_ok
+theorem i32_shr_s_ok : Full2 CVal.i32 CVal.i32 CVal.i32 (wBin .shr_s) f_i32_shr_s := Rows.i32_shr_s_ok
+theorem i32_shr_u_ok : Full2 CVal.i32 CVal.i32 CVal.i32 (wBin .shr_u) f_i32_shr_u := Rows.i32_shr_u_ok
+theorem i32_rotl_ok : Full2 CVal.i32 CVal.i32 CVal.i32 (wBin .rotl) f_i32_rotl := Rows.i32_rotl_ok
+theorem i32_rotr_ok : Full2 CVal.i32 CVal.i32 CVal.i32 (wBin .rotr) f_i32_rotr := Rows.i32_rotr_ok
 theorem i32_eq_ok : Full2 CVal.i32 CVal.i32 CVal.i32 (wRel .eq) f_i32_eq := Rows.i32_eq_ok
 theorem i32_ne_ok : Full2 CVal.i32 CVal.i32 CVal.i32 (wRel .ne) f_i32_ne := Rows.i32_ne_ok
 theorem i32_lt_s_ok : Full2 CVal.i32 CVal.i32 CVal.i32 (wRel .lt_s) f_i32_lt_s := Rows.i32_lt_s_ok
@@ -68,41 +44,20 @@ theorem i32_clz_ok : Full1 CVal.i32 CVal.i32 (wUn .clz) f_i32_clz := Rows.i32_cl
 theorem i32_ctz_ok : Full1 CVal.i32 CVal.i32 (wUn .ctz) f_i32_ctz := Rows.i32_ctz_ok
 theorem i32_popcnt_ok : Full1 CVal.i32 CVal.i32 (wUn .popcnt) f_i32_popcnt := Rows.i32_popcnt_ok
 theorem select_i32_ok : Full3 CVal.i32 CVal.i32 CVal.i32 CVal.i32 wSelect f_select_i32 := Rows.select_i32_ok
-theorem i64_add_partial : Partial2 CVal.i64 CVal.i64 CVal.i64 Guard.addOk (wBin .add) f_i64_add := Rows.i64_add_partial
-theorem i64_add_full_false : ¬ Full2 CVal.i64 CVal.i64 CVal.i64 (wBin .add) f_i64_add := Rows.i64_add_full_false
-theorem i64_add_sound : Sound2 CVal.i64 CVal.i64 CVal.i64 (wBin .add) f_i64_add := Rows.i64_add_sound
-theorem i64_sub_partial : Partial2 CVal.i64 CVal.i64 CVal.i64 Guard.subOk (wBin .sub) f_i64_sub := Rows.i64_sub_partial
-theorem i64_sub_full_false : ¬ Full2 CVal.i64 CVal.i64 CVal.i64 (wBin .sub) f_i64_sub := Rows.i64_sub_full_false
-theorem i64_sub_sound : Sound2 CVal.i64 CVal.i64 CVal.i64 (wBin .sub) f_i64_sub := Rows.i64_sub_sound
-theorem i64_mul_partial : Partial2 CVal.i64 CVal.i64 CVal.i64 Guard.mulOk (wBin .mul) f_i64_mul := Rows.i64_mul_partial
-theorem i64_mul_full_false : ¬ Full2 CVal.i64 CVal.i64 CVal.i64 (wBin .mul) f_i64_mul := Rows.i64_mul_full_false
-theorem i64_mul_sound : Sound2 CVal.i64 CVal.i64 CVal.i64 (wBin .mul) f_i64_mul := Rows.i64_mul_sound
-theorem i64_div_s_partial : Partial2 CVal.i64 CVal.i64 CVal.i64 Guard.divS (wBin .div_s) f_i64_div_s := Rows.i64_div_s_partial
-theorem i64_div_s_full_false : ¬ Full2 CVal.i64 CVal.i64 CVal.i64 (wBin .div_s) f_i64_div_s := Rows.i64_div_s_full_false
-theorem i64_div_s_sound : Sound2 CVal.i64 CVal.i64 CVal.i64 (wBin .div_s) f_i64_div_s := Rows.i64_div_s_sound
-theorem i64_div_u_partial : Partial2 CVal.i64 CVal.i64 CVal.i64 Guard.divU (wBin .div_u) f_i64_div_u := Rows.i64_div_u_partial
-theorem i64_div_u_full_false : ¬ Full2 CVal.i64 CVal.i64 CVal.i64 (wBin .div_u) f_i64_div_u := Rows.i64_div_u_full_false
-theorem i64_div_u_sound : Sound2 CVal.i64 CVal.i64 CVal.i64 (wBin .div_u) f_i64_div_u := Rows.i64_div_u_sound
-theorem i64_rem_s_partial : Partial2 CVal.i64 CVal.i64 CVal.i64 Guard.divS (wBin .rem_s) f_i64_rem_s := Rows.i64_rem_s_partial
-theorem i64_rem_s_full_false : ¬ Full2 CVal.i64 CVal.i64 CVal.i64 (wBin .rem_s) f_i64_rem_s := Rows.i64_rem_s_full_false
-theorem i64_rem_s_sound : Sound2 CVal.i64 CVal.i64 CVal.i64 (wBin .rem_s) f_i64_rem_s := Rows.i64_rem_s_sound
-theorem i64_rem_u_partial : Partial2 CVal.i64 CVal.i64 CVal.i64 Guard.divU (wBin .rem_u) f_i64_rem_u := Rows.i64_rem_u_partial
-theorem i64_rem_u_full_false : ¬ Full2 CVal.i64 CVal.i64 CVal.i64 (wBin .rem_u) f_i64_rem_u := Rows.i64_rem_u_full_false
-theorem i64_rem_u_sound : Sound2 CVal.i64 CVal.i64 CVal.i64 (wBin .rem_u) f_i64_rem_u := Rows.i64_rem_u_sound
+theorem i64_add_ok : Full2 CVal.i64 CVal.i64 CVal.i64 (wBin .add) f_i64_add := Rows.i64_add_ok
+theorem i64_sub_ok : Full2 CVal.i64 CVal.i64 CVal.i64 (wBin .sub) f_i64_sub := Rows.i64_sub_ok
+theorem i64_mul_ok : Full2 CVal.i64 CVal.i64 CVal.i64 (wBin .mul) f_i64_mul := Rows.i64_mul_ok
+theorem i64_div_u_ok : Full2 CVal.i64 CVal.i64 CVal.i64 (wBin .div_u) f_i64_div_u := Rows.i64_div_u_ok
+theorem i64_rem_s_ok : Full2 CVal.i64 CVal.i64 CVal.i64 (wBin .rem_s) f_i64_rem_s := Rows.i64_rem_s_ok
+theorem i64_rem_u_ok : Full2 CVal.i64 CVal.i64 CVal.i64 (wBin .rem_u) f_i64_rem_u := Rows.i64_rem_u_ok
 theorem i64_and_ok : Full2 CVal.i64 CVal.i64 CVal.i64 (wBin .and) f_i64_and := Rows.i64_and_ok
 theorem i64_or_ok : Full2 CVal.i64 CVal.i64 CVal.i64 (wBin .or) f_i64_or := Rows.i64_or_ok
 theorem i64_xor_ok : Full2 CVal.i64 CVal.i64 CVal.i64 (wBin .xor) f_i64_xor := Rows.i64_xor_ok
-theorem i64_shl_partial : Partial2 CVal.i64 CVal.i64 CVal.i64 Guard.shl64 (wBin .shl) f_i64_shl := Rows.i64_shl_partial
-theorem i64_shl_full_false : ¬ Full2 CVal.i64 CVal.i64 CVal.i64 (wBin .shl) f_i64_shl := Rows.i64_shl_full_false
-theorem i64_shl_sound : Sound2 CVal.i64 CVal.i64 CVal.i64 (wBin .shl) f_i64_shl := Rows.i64_shl_sound
+theorem i64_shl_ok : Full2 CVal.i64 CVal.i64 CVal.i64 (wBin .shl) f_i64_shl := Rows.i64_shl_ok
 theorem i64_shr_s_ok : Full2 CVal.i64 CVal.i64 CVal.i64 (wBin .shr_s) f_i64_shr_s := Rows.i64_shr_s_ok
 theorem i64_shr_u_ok : Full2 CVal.i64 CVal.i64 CVal.i64 (wBin .shr_u) f_i64_shr_u := Rows.i64_shr_u_ok
-theorem i64_rotl_partial : Partial2 CVal.i64 CVal.i64 CVal.i64 Guard.rotl64 (wBin .rotl) f_i64_rotl := Rows.i64_rotl_partial
-theorem i64_rotl_full_false : ¬ Full2 CVal.i64 CVal.i64 CVal.i64 (wBin .rotl) f_i64_rotl := Rows.i64_rotl_full_false
-theorem i64_rotl_sound : Sound2 CVal.i64 CVal.i64 CVal.i64 (wBin .rotl) f_i64_rotl := Rows.i64_rotl_sound
-theorem i64_rotr_partial : Partial2 CVal.i64 CVal.i64 CVal.i64 Guard.rotr64 (wBin .rotr) f_i64_rotr := Rows.i64_rotr_partial
-theorem i64_rotr_full_false : ¬ Full2 CVal.i64 CVal.i64 CVal.i64 (wBin .rotr) f_i64_rotr := Rows.i64_rotr_full_false
-theorem i64_rotr_sound : Sound2 CVal.i64 CVal.i64 CVal.i64 (wBin .rotr) f_i64_rotr := Rows.i64_rotr_sound
+theorem i64_rotl_ok : Full2 CVal.i64 CVal.i64 CVal.i64 (wBin .rotl) f_i64_rotl := Rows.i64_rotl_ok
+theorem i64_rotr_ok : Full2 CVal.i64 CVal.i64 CVal.i64 (wBin .rotr) f_i64_rotr := Rows.i64_rotr_ok
 theorem i64_eq_ok : Full2 CVal.i64 CVal.i64 CVal.i32 (wRel .eq) f_i64_eq := Rows.i64_eq_ok
 theorem i64_ne_ok : Full2 CVal.i64 CVal.i64 CVal.i32 (wRel .ne) f_i64_ne := Rows.i64_ne_ok
 theorem i64_lt_s_ok : Full2 CVal.i64 CVal.i64 CVal.i32 (wRel .lt_s) f_i64_lt_s := Rows.i64_lt_s_ok
